@@ -147,7 +147,7 @@ Fixpoint snap_eqb (a b : list (str * bytes)) : bool :=
   end.
 Definition vm_ok (c : N * gstore * list gitem * list (str * bytes)) : bool :=
   let '(_, objs, items, expect) := c in
-  match rev (g_run cfg_patched [98%N] 64%nat (g_init objs) items) with
+  match rev (g_run cfg_src [98%N] 64%nat (g_init objs) items) with
   | GSnap l :: _ => snap_eqb l expect
   | _ => false
   end.
